@@ -744,13 +744,14 @@ def check_graph(run, rng, spec: Dict[str, Any], engine: str, case: Dict[str, Any
                               key='default-arguments-differ', engine=engine, case=case)
     # binary version 0 ("Must be a number from 0-5"): the legacy header `<!-- DMXVersion <name>_v2 -->`, which the reader
     # accepts for the names 'binary' and 'sfm'; it carries no format name/version (read back as '' and 0) and no TIME type
-    if not feat['non_ascii'] and not feat['nul'] and not feat['time']:
+    if not feat['nul'] and not feat['time']:
         from srctools.dmx import Element as _El
         name0 = ('sfm', 'binary')[len(exp) % 2]
         b0 = io.BytesIO()
         try:
-            root.export_binary(b0, 0, name0, 1, 'ascii')
-            parsed0, got_name0, got_ver0 = _El.parse(io.BytesIO(b0.getvalue()))
+            # (the legacy header has no unicode marker: non-ASCII graphs are written 'silent' and read with unicode=True)
+            root.export_binary(b0, 0, name0, 1, 'silent' if feat['non_ascii'] else 'ascii')
+            parsed0, got_name0, got_ver0 = _El.parse(io.BytesIO(b0.getvalue()), unicode=bool(feat['non_ascii']))
             d0 = diff_nodes(exp, snapshot(parsed0), exact=True, uuids=True)
         except Exception as exc:
             run.violation(f'binary v0 ({name0}): export/parse raised {type(exc).__name__}: {exc}', key='legacy-version-0-roundtrip',
